@@ -78,6 +78,15 @@ impl Decoder {
         }
     }
 
+    // verification hook H6: sparse threshold setter that is also available without the
+    // `benchmarking` feature (which implies `std`)
+    #[cfg(raptorq_verif)]
+    pub fn verif_set_sparse_threshold(&mut self, value: u32) {
+        for block_decoder in self.block_decoders.iter_mut() {
+            block_decoder.verif_set_sparse_threshold(value);
+        }
+    }
+
     pub fn decode(&mut self, packet: EncodingPacket) -> Option<Vec<u8>> {
         let block_number = packet.payload_id.source_block_number() as usize;
         if self.blocks[block_number].is_none() {
@@ -173,6 +182,12 @@ impl SourceBlockDecoder {
 
     #[cfg(any(test, feature = "benchmarking"))]
     pub fn set_sparse_threshold(&mut self, value: u32) {
+        self.sparse_threshold = value;
+    }
+
+    // verification hook H6
+    #[cfg(raptorq_verif)]
+    pub fn verif_set_sparse_threshold(&mut self, value: u32) {
         self.sparse_threshold = value;
     }
 
